@@ -96,7 +96,9 @@ def walk_ctor(wp, ctor, n):
         raise Unsupported(f'{wp.name}: constructor without a leading dims parameter')
     wp.env['dims'] = V(str(n), 'Int', 'long')
     for p in params[1:]:
-        raise Unsupported(f'{wp.name}: constructor parameter {p.get("name")}')
+        if p.get('name') != 'summands':
+            raise Unsupported(f'{wp.name}: constructor parameter {p.get("name")}')
+        wp.env['summands'] = V(str(n), 'Int', 'long')          # bounded stand-in: as many summands as dimensions
     wp.matrix_members = set()
     for ini in ctor.get('inner', []):
         if ini.get('kind') != 'CXXCtorInitializer' or 'anyInit' not in ini:
@@ -217,7 +219,7 @@ def generic_vcs(name, info, not_decided, assumptions):
     info.append(fninfo(tag + '::do_vgrad', f'nano::{cls}::do_vgrad', path, fn))
     info.append(fninfo(tag + '::ctor', f'nano::{cls}::{cls}', path, ctor))
     wp, (guard, rv, env, facts) = walk_function(tag, fn, path)
-    gen = Gen(wp.decls, length='n', hyps=['(>= n 1)'])
+    gen = Gen(wp.decls, length='n', hyps=['(>= n 1)'], tag=tag)
     src = {'file': path, 'line': fn.get('loc', {}).get('line')}
     vcs = gen.from_wp(wp, tag, path)
     R = sx.parse(rv.t)
@@ -319,7 +321,7 @@ def bounded_vcs(name, sizes, info, not_decided, assumptions, symmetric=(), extra
                 continue          # no `dims` gives a function of this size (powell: multiples of 4, rosenbrock: >= 2)
         wp, (guard, rv, env, facts) = walk_function(tag, fn, path, n=n, symmetric=symmetric, ctor=ctor if use_ctor else None)
         hyps = list(extra_hyps(wp, n)) if extra_hyps else []
-        gen = Gen(wp.decls, hyps=hyps)
+        gen = Gen(wp.decls, hyps=hyps, tag=tag)
         vcs = gen.from_wp(wp, tag, path)
         R = sx.parse(rv.t)
         g = env['gx']
